@@ -124,6 +124,9 @@ func init() {
 	reg(nd+"IteU64", func(fr *frame, args []value) value {
 		return fr.m.ts.Ite(args[0].(*Term), args[1].(*Term), args[2].(*Term))
 	})
+	reg(nd+"IteU8", func(fr *frame, args []value) value {
+		return fr.m.ts.Ite(args[0].(*Term), args[1].(*Term), args[2].(*Term))
+	})
 	reg(nd+"IteInt", func(fr *frame, args []value) value {
 		return fr.m.ts.Ite(args[0].(*Term), args[1].(*Term), args[2].(*Term))
 	})
